@@ -1,5 +1,6 @@
 import Martian.Model.Proxy
 import Martian.Go.Strings
+import Martian.Go.Header
 /-!
 Wire-level attributes of a non-CONNECT exchange, in front of the exchange machine: what decides
 `req.Close` and `res.Close` (the two inputs of `handle`'s close decision besides shutdown) and how
@@ -127,5 +128,35 @@ def written (x : XW) (synthetic closing : Bool) : Written :=
   let close' := closing || (decide (fr = .untilClose) && decide (minor ≥ 1))
   { minor := minor, framing := fr,
     saysClose := shouldClose 1 minor (writtenConn x synthetic close') || decide (fr = .untilClose) }
+
+/-! ### `proxyutil.Warning` -/
+
+def kDate : Bytes := strBytes "Date"
+def kWarning : Bytes := strBytes "Warning"
+
+/-- `proxyutil.Warning(header, err)`: the warn-date is the message's Date (`header.Get("Date")`, the
+first line whatever it holds) or, when that is empty, the current time; then the value is ADDED -
+always. `value msg date` stands for `fmt.Sprintf("199 \"martian\" %q %q", msg, date)`. -/
+def puWarning (value : Bytes → Bytes → Bytes) (h : Go.Header) (msg now : Bytes) : Go.Header :=
+  let date := Go.Header.get h kDate
+  Go.Header.add h kWarning (value msg (if date == [] then now else date))
+
+/-! ### The idle deadline of the serving loop -/
+
+/-- `handleLoop`: before every call of `handle` the deadline of the client connection is set to
+now + timeout; an exchange that takes `lat` to serve is done at now + lat, and its response can be
+written iff that is not after the deadline. Returns how many exchanges of the batch are served
+(however they arrived: one at a time or all buffered already). -/
+def serveTimed (timeout : Nat) : Nat → List Nat → Nat
+  | _, [] => 0
+  | now, lat :: rest =>
+    let deadline := now + timeout
+    if now + lat ≤ deadline then 1 + serveTimed timeout (now + lat) rest else 0
+
+/-- The same loop with the deadline armed only once, before the first exchange (what "re-arm only
+when nothing is buffered" amounts to for a pipelined batch). -/
+def serveTimedOnce (deadline : Nat) : Nat → List Nat → Nat
+  | _, [] => 0
+  | now, lat :: rest => if now + lat ≤ deadline then 1 + serveTimedOnce deadline (now + lat) rest else 0
 
 end Martian.Proxy.Wire
